@@ -440,6 +440,17 @@ def call_sites(repo, chk, sampler):
         t = term_of(f, counter, inline=True) if counter is not None else ('default',)
         space = 'ranking pairs' if f.qualname == 'mixed_rank_graph' else ('feature-construction tuples' if f.qualname == 'compute_combined_features' else f.qualname)
         by_space.setdefault(space, []).append((f, c, t, counter))
+    # every batch goes through the sampler: the counter is where the evaluations are counted, so a call that is skipped "when the cap does not bind"
+    # leaves the candidates of that batch evaluated but uncounted
+    for f, c in sites:
+        par_f = parents(f.node)
+        for g in _enclosing(c, par_f, f.node):
+            if isinstance(g, ast.If) and any(x is c for b in g.body for x in ast.walk(b)):
+                tt = ast.unparse(g.test)
+                cands_arg = ast.unparse(c.args[0]) if c.args else ''
+                if ('combination_number_upper_bound' in tt or 'len(' in tt) and cands_arg and cands_arg in tt:
+                    chk.bad('C07.6e', 'R5', f.site(g), tt[:100], f'the sampler is only called under `{tt[:60]}`: in a batch where the test fails every candidate is evaluated but none is counted, so the reported counts '
+                            'fall short of the number of batches in which each combination was evaluated (and the next capped batch does not start from the least-evaluated ones)')
     for space, lst in by_space.items():
         for f, c, t, counter in lst:
             if space == 'ranking pairs':
